@@ -1,5 +1,5 @@
 """C07 -- curve operations form the standard group in all four curve modules."""
-from .. import constants, curvemachine, curves, grouptrace, mulrec, tables
+from .. import constants, coordbig, curvemachine, curves, grouptrace, mulrec, tables
 
 
 def curve_tables(ctx, mods=None, only_ops=None, secp=False, name="CurveTable"):
@@ -20,6 +20,8 @@ def run(ctx):
     constants.check_constants(ctx, ("bls", "bn"))
     # full size: every module x base / twist group against the abstract group Z_r x Z_l (BigNat)
     grouptrace.run_traces(ctx, [(m, g) for m in grouptrace.SPECS for g in (1, 2, 12)])
+    # full size, in coordinates: add / double / neg against the affine law with the slope as a verified witness
+    coordbig.coord_tables(ctx, which=("curves",))
     curve_tables(ctx, only_ops={"add", "double", "neg", "mul", "eq", "onc", "isinf", "norm", "twist", "twadd"})
     # (A) the group laws on every register file over all points of small curves; (B) TLC-generated programs
     # replayed into the four modules, registers holding the representatives the code itself produced
